@@ -362,6 +362,15 @@ class Pool():
                     logger.debug('Trying to enqueue new data for {}', worker)
                     try_enqueue(worker)
 
+            def handle_late_result(worker, result):
+                if self._retry:
+                    logger.debug('Ignoring a late result from dead {}, its input is going to be processed again', worker)
+                    return
+                if worker_callback:
+                    worker_callback(worker, 'finished', result)
+                if return_results:
+                    ret.append(result)
+
             def first_enqueue():
                 for _ in range(worker_extra_pending_inputs + 1):
                     for worker in self._workers.values():
@@ -408,6 +417,10 @@ class Pool():
                     if not flag:
                         if worker.id not in self._closed: # if a worker died while enqueueing, its death has already been handled but we will (possibly) end up here
                             handle_death(worker)
+                    elif worker.id in self._closed:
+                        # similar to the above: the worker managed to send this result before it died while we were enqueueing to it,
+                        # so its pending inputs (including the one this result is for) have already been rescheduled or dropped
+                        handle_late_result(worker, result)
                     else:
                         handle_new_result(worker, result)
 
